@@ -96,19 +96,7 @@ theorem emitFold_mod (ctx : Ctx) (st : St) (n : Node) (c : CInfo) : (emitFold ct
         exact hs1
       | false =>
         simp only [Bool.false_eq_true, if_false]
-        cases hc : (s1.setInfo ("%" ++ toString s1.fresh)
-            { dtype := some c.dtype, shape := some (List.map (fun d => Dim.known (Int.ofNat d)) c.shape), const := some c }).initDisplay.contains
-            ((s1.setInfo ("%" ++ toString s1.fresh)
-              { dtype := some c.dtype, shape := some (List.map (fun d => Dim.known (Int.ofNat d)) c.shape), const := some c }).display
-              (n.outputs.headD "")) with
-        | true =>
-          simp only [St.setInfo, St.display] at hc
-          simp only [St.setInfo, St.display, hc, if_true]
-          exact hs1
-        | false =>
-          simp only [St.setInfo, St.display] at hc
-          simp only [St.setInfo, St.display, hc, Bool.false_eq_true, if_false]
-          exact hs1
+        exact hs1
 
 theorem gateCascade_mod (ctx : Ctx) (st : St) (n : Node) (v : Nat) : (gateCascade ctx st n v).2.modified = st.modified := by
   unfold gateCascade
